@@ -31,7 +31,7 @@ class ManagedBSE:
         s.W = ManagedWorld(prog, c['env'])
         s.M = s.W.M
         s.M.task_mode = not c['thread_mode']
-        s.M.fine_points = bool(c.get('fine'))
+        s.M.fine_points = bool(c.get('fine')); s.M.allow_block = True
         s.tasks = list(c.get('task_names') or [f'T{i + 1}' for i in range(c['tasks'])])
         s.probe_cache = {}
         s.nprobes = 0
@@ -442,6 +442,13 @@ class ManagedBSE:
                 out.append(d)
             for t in s.queued_tasks(st):
                 out.append(s.vio('C06', f'{t} is still queued for a slot after close() returned', st))
+            if not out and not s.any_lock_held(st) and not any('fut' in st.threads[t].local for t in s.tasks):
+                # ... and says so: at rest status() of the closed pool reports max_size 0 and nothing available
+                sc = st.clone(); r = s.W.status(sc, 'S', sc.gget('pool'))
+                if len(r) == 1 and r[0][1][0] == 'ok':
+                    S = r[0][1][1]
+                    if s.M.feasible(sc, z(binop('Ne', S.f[0], I(0)))): out.append(s.vio('C06', f'status() of the closed pool reports max_size {S.f[0]!r}', st))
+                    if s.M.feasible(sc, z(binop('Ne', S.f[2], I(0)))): out.append(s.vio('C06', f'status() of the closed pool reports {S.f[2]!r} available object(s)', st))
         if out and any(not v.get('known') for v in out): return out
         if 'C11' in O and not s.any_lock_held(st): out.extend(s.check_status(st))
         if out: return out
@@ -473,6 +480,7 @@ class ManagedBSE:
 
     def c07_known(s, st, d):
         fl = st.gget('flags', ())
+        if d.get('lost'): return d
         if 'shrink_unused' in fl: d['known'] = 'K-C07a'
         elif 'grow_with_surplus' in fl: d['known'] = 'K-C07b'
         elif 'shrink_assigned_waiter' in fl: d['known'] = 'K-C07c'
@@ -570,7 +578,11 @@ class ManagedBSE:
 
     # end-of-history probe: cancel everything, return everything, then exactly max_size non-blocking gets succeed
     def probe(s, st):
-        if st.gget('closed_ret') or st.gget('resizes'): return []
+        if st.gget('closed_ret'): return []
+        if st.gget('resizes'):
+            # after resizes the exact capacity is C07's subject (with its known findings, all of which leave capacity ABOVE the
+            # last value); what C02 still demands is that no capacity is LOST: the pool can hand out at least the last value again
+            return [v for v in s.capacity_probe(st, I(st.gget('resizes')[-1]), 'C02') if v.get('lost')]
         return s.capacity_probe(st, st.gget('max_size'), 'C02')
 
     def capacity_probe(s, st, expected, prop):
@@ -622,6 +634,9 @@ class ManagedBSE:
                 if M.feasible(y, z(binop('Ne', I(n), expected))):
                     d = s.vio(prop, f'after the history the pool hands out {n} objects concurrently, not the configured capacity (capacity lost or gained)', y)
                     d['probe_log'] = steps(y); d['got'] = n
+                    # every known C07 role leaves capacity ABOVE the configured value; capacity below it is always a new violation
+                    if not M.feasible(y, z(binop('Gt', I(n), expected))):
+                        d['lost'] = True; d['what'] = d['what'].replace('(capacity lost or gained)', '(capacity LOST)')
                     out.append(d)
             return out[:1]
         finally:
@@ -703,6 +718,11 @@ def _digest(s, st0, a, st):
                 tr = trail.get(oid, ())
                 if tr and tr[-1][2] == 'started':
                     trail[oid] = tr[:-1] + ((tr[-1][0], tr[-1][1], e[-1]),)
+        elif k == 'env' and e[1] == 'timer' and 'expired' in e:
+            # a timeout cut the step the object in hand was in
+            for oid in (cur['inhand'] if cur else ()):
+                tr = trail.get(oid, ())
+                if tr and tr[-1][2] == 'started': trail[oid] = tr[:-1] + ((tr[-1][0], tr[-1][1], 'timeout'),)
         elif k == 'handed':
             if e[1] in idleq: idleq.remove(e[1])
         elif k == 'destroy':
@@ -740,11 +760,21 @@ def _digest(s, st0, a, st):
         for oid in cur['inhand']:
             if oid == handed: continue
             r = objs[oid]
+            tr = trail.get(oid, ())
+            if res[0] in ('ok', 'err') and tr and tr[0][0] != 'create' and not any(x[2] in ('err', 'panic', 'timeout') for x in tr) \
+                    and not (res[0] == 'err' and res[1].startswith('Timeout')) and r['destroyed'] > 0:
+                vio('C04', f'idle object {oid} was discarded by get() although none of its recycling steps failed, timed out or was cancelled: {tr}')
             if r['destroyed'] != 1 or r['detached'] != 1:
                 vio('C04' if res[0] in ('err', 'ok') else 'C03',
                     f'object {oid} was taken in hand by a get() that ended ({res}) without handing it out, but it was destroyed {r["destroyed"]}x and detached {r["detached"]}x (expected exactly once each)')
         if res[0] == 'err':
             _check_error(s, st, ev, cur, res[1], vio)
+        if res[:2] == ('err', 'NoRuntimeSpecified'):
+            # the misconfiguration is reported INSTEAD of touching the pool: no object may have been discarded or created by this call
+            lost = [e[1] for e in ev if e[0] in ('destroy', 'detach')] + [e[1] for e in ev if e[0] == 'created']
+            genuine = any(e[0] == 'env' and e[1] in ('recycle', 'hook') and e[-1] in ('err', 'panic') for e in ev)
+            if lost and not genuine:
+                vio('C10', f'get() reported NoRuntimeSpecified but discarded / created objects on the way: {tuple(sorted(set(lost)))}')
         if not s.cfg['runtime'] and res[0] in ('ok', 'err'):
             tv = cur['tv'] if cur['tv'] is not None else s.cfg['pool_timeouts']
             touched_idle = any(e[0] == 'recycle_call' or (e[0] == 'hook_call' and e[1] != 'post_create') for e in ev)
